@@ -162,7 +162,7 @@ Proof.
     cbn [pre_steps app]. rewrite S2, S1. reflexivity.
   - (* id() / key(), alone or followed by '/' *)
     destruct f as [| | | | | | | | | | | | | | | | | | |name args| |]; try discriminate Hc0.
-    destruct (idkey_name _ _ Hc0) as (Hn & Hcf & Hlit).
+    destruct (idkey_name _ _ Hc0) as (Hn & Hcf & Hlit & _).
     set (tailtoks := match r with [] => [] | _ => sl :: ppr_steps r end) in *.
     assert (R : look_c (tailtoks ++ rest) ch_lparen 0 = false /\ look_c (tailtoks ++ rest) ch_colon 0 = false /\
                 N.eqb (tokc (tailtoks ++ rest)) ch_lbrack = false).
@@ -181,7 +181,7 @@ Proof.
   - (* id() / key() followed by '//' *)
     destruct f as [| | | | | | | | | | | | | | | | | | |name args| |]; try discriminate Hc0.
     apply andb_prop in Hc0. destruct Hc0 as [Hf Hne].
-    destruct (idkey_name _ _ Hf) as (Hn & Hcf & Hlit).
+    destruct (idkey_name _ _ Hf) as (Hn & Hcf & Hlit & _).
     apply negb_true_iff in Hne. assert (NE : r <> []) by (destruct r; [discriminate|discriminate]).
     rewrite <- app_assoc in *. cbn [app] in *.
     pose proof (prim_rt fl ns pe lf n (expr_size (EFunc name args)) ltac:(unfold lf; lia)
@@ -264,8 +264,8 @@ Proof.
     - apply negb_true_iff in Ha0. assert (NE : q <> []) by (destruct q; [discriminate|discriminate]).
       destruct (steps_shape q (ppr_tail r) NE) as (k & X & E). unfold tok, str, pstep in *. rewrite E.
       unfold axis_kw. destruct (is_attr_kind k); reflexivity.
-    - destruct f; try discriminate Ha0. destruct (idkey_name _ _ Ha0) as ([-> | ->] & _ & _); rewrite pr_func; reflexivity.
+    - destruct f; try discriminate Ha0. destruct (idkey_name _ _ Ha0) as ([-> | ->] & _ & _ & _); rewrite pr_func; reflexivity.
     - destruct f; try discriminate Ha0. apply andb_prop in Ha0. destruct Ha0 as [Ha0 _].
-      destruct (idkey_name _ _ Ha0) as ([-> | ->] & _ & _); rewrite pr_func; reflexivity. }
+      destruct (idkey_name _ _ Ha0) as ([-> | ->] & _ & _ & _); rewrite pr_func; reflexivity. }
   rewrite (level_from_union fl ns _ (S n) 1 _ _ ltac:(lia) U F 6). reflexivity.
 Qed.
